@@ -325,9 +325,9 @@ fn sel_strategy() -> impl Strategy<Value = SelSpec> {
 
 fn fval_strategy() -> impl Strategy<Value = FValSpec> {
     prop_oneof![
-        6 => any::<u16>().prop_map(FValSpec::FromData),
+        9 => any::<u16>().prop_map(FValSpec::FromData),
         2 => (any::<u16>(), -1i8..=1).prop_map(|(r, d)| FValSpec::NearMiss(r, d)),
-        2 => (0u8..10).prop_map(FValSpec::Pool),
+        1 => (0u8..10).prop_map(FValSpec::Pool),
         2 => Just(FValSpec::Null),
     ]
 }
@@ -335,7 +335,7 @@ fn fval_strategy() -> impl Strategy<Value = FValSpec> {
 fn filter_strategy() -> impl Strategy<Value = FilterSpec> {
     (
         any::<u16>(),
-        0u8..6,
+        prop_oneof![2 => Just(0u8), 2 => Just(1u8), 1 => Just(2u8), 2 => Just(3u8), 1 => Just(4u8), 2 => Just(5u8)],
         fval_strategy(),
         prop::bool::weighted(0.25),
     )
